@@ -19,7 +19,7 @@ while [ $k -lt $N ]; do
        p=$(python3 -c "import json;print(json.load(open(\"seeded/$n/meta.json\"))[\"property\"])")
        git -C /repo apply "/verif/seeded/$n/patch.diff" || { echo "$n: patch does not apply"; continue; }
        timeout 1500 ./check $p > /var/tmp/sb/out-$n.txt 2>&1; rc=$?
-       git -C /repo checkout -- .
+       git -C /repo checkout -- . ; git -C /repo clean -fdq
        echo "$n [$p] exit=$rc violations=$(grep -c "^VIOLATION" /var/tmp/sb/out-$n.txt) with-input=$(grep "^VIOLATION" /var/tmp/sb/out-$n.txt | grep -vc no-failing-input-found)"
      done' > /var/tmp/sb/reg-$k.log 2>&1) &
   k=$((k+1))
